@@ -552,6 +552,13 @@ func (bridge *ExprBridge) PreprocessLikeExpression(expression string) (string, e
 	return result, nil
 }
 
+// nullSafePath turns a.b.c into a?.b?.c so that a NULL or missing parent makes the
+// whole path NULL (SQL semantics) instead of an evaluation error, which the callers
+// treat as "predicate false" for IS NULL and IS NOT NULL alike.
+func nullSafePath(path string) string {
+	return strings.ReplaceAll(path, ".", "?.")
+}
+
 // PreprocessIsNullExpression 预处理IS NULL和IS NOT NULL表达式，转换为expr-lang可理解的表达式
 func (bridge *ExprBridge) PreprocessIsNullExpression(expression string) (string, error) {
 	// 匹配复杂表达式的 IS NOT NULL 模式 (如函数调用)
@@ -582,7 +589,9 @@ func (bridge *ExprBridge) PreprocessIsNullExpression(expression string) (string,
 	}
 
 	// 替换简单字段的IS NOT NULL
-	result = reNotNull.ReplaceAllString(result, "$1 != nil")
+	result = reNotNull.ReplaceAllStringFunc(result, func(m string) string {
+		return nullSafePath(reNotNull.FindStringSubmatch(m)[1]) + " != nil"
+	})
 
 	// 匹配简单字段的 IS NULL 模式
 	isNullPattern := `(\w+(?:\.\w+)*)\s+IS\s+NULL`
@@ -592,7 +601,9 @@ func (bridge *ExprBridge) PreprocessIsNullExpression(expression string) (string,
 	}
 
 	// 再替换简单字段的IS NULL
-	result = reNull.ReplaceAllString(result, "$1 == nil")
+	result = reNull.ReplaceAllStringFunc(result, func(m string) string {
+		return nullSafePath(reNull.FindStringSubmatch(m)[1]) + " == nil"
+	})
 
 	return result, nil
 }
